@@ -6,6 +6,7 @@ verus! {
 //@@SPEC vocab.rs@@
 //@@SPEC contracts/integer_variable_consumer.rs@@
 //@@SPEC prop_ctx.rs@@
+//@@SPEC prop_ctx_stateful.rs@@
 //@@SPEC std_option_extra.rs@@
 broadcast use {conv_axioms::axiom_from_empty_domain, seq_lemmas::lemma_seq_holds_push};
 
